@@ -671,6 +671,8 @@ def check_no_unstable_sort(ctx, lib, by_name):
 
 def check_internal_order(ctx, lib):
     rule = "value-order"
+    from ..leaf import check_kind_equality
+    check_kind_equality(ctx, lib, rule)
     b = ctx.fn("<variable::Variable as std::cmp::Ord>::cmp", rule=rule)
     if b is None:
         return
